@@ -78,6 +78,52 @@ def merge_paths(paths):
     return Path(conds=[], ret=ret, raised=None, env=first.env, self_attrs=attrs, effects=list(first.effects), asserts=list(first.asserts))
 
 
+def entails(nz, conds, goal):
+    """What the decisions taken on a path say about the Boolean `goal`: True when their conjunction implies it, False when it implies
+    its negation, None when it decides neither.  Decided on the truth table over the atoms of the tests, so that `if a or b`,
+    `if not a: ... elif b`, inverted branches and De Morgan spellings of one guard are indistinguishable."""
+    from ..norm import KFALSE
+    lits = tuple(t if v else ("un", "Not", t) for t, v in conds)
+    if not lits:
+        return None
+    conj = ("boolop", "And", lits) if len(lits) > 1 else lits[0]
+    if nz.boolean(conj) == KFALSE:
+        return None  # infeasible path
+    if nz.boolean(("boolop", "And", (conj, ("un", "Not", goal)))) == KFALSE:
+        return True
+    if nz.boolean(("boolop", "And", (conj, goal))) == KFALSE:
+        return False
+    return None
+
+
+def dict_items(n):
+    """The constant-keyed entries a dict-valued node is known to hold, however it was put together: a display with or without `**`
+    spreads, successive item assignments, or both. Later entries win; an entry is dropped again when something of unknown key set
+    (a spread of an opaque mapping, an assignment under a computed key) comes after it and may overwrite it."""
+    out: dict = {}
+
+    def fill(x):
+        if isinstance(x, tuple) and x and x[0] == "setitem":
+            fill(x[1])
+            if isinstance(x[2], tuple) and x[2][0] == "const":
+                out[x[2][1]] = x[3]
+            else:
+                out.clear()
+        elif isinstance(x, tuple) and x and x[0] == "dict":
+            for k, v in x[1]:
+                if k == ("const", "**"):
+                    fill(v)
+                elif isinstance(k, tuple) and k[0] == "const":
+                    out[k[1]] = v
+                else:
+                    out.clear()
+        else:
+            out.clear()  # opaque mapping (comprehension, parameter, call): keys unknown
+
+    fill(n)
+    return out
+
+
 def live(paths):
     return [p for p in paths if p.raised is None]
 
@@ -420,3 +466,21 @@ def no_late_binding(s, rule, prefixes, necessary_for=""):
         s.ob(rule, qual.replace("lerax.", ""), not hits, "functions created inside a loop do not read loop variables late (closures bind at call time)", P.loc(m, fn),
              key="cell-var-from-loop", detail="; ".join(hits[:3]), necessary_for=necessary_for)
     return n
+
+
+def apply_fn(b, f, args, kwargs=()):
+    """Apply a function-valued node to argument nodes, looking THROUGH the way the function is spelled: a local closure, a
+    module-level function of the package (inlined even when the builder's policy would leave it uninterpreted), a
+    functools.partial of either, or anything else (left to the builder)."""
+    from ..vgraph import Ctx
+    if isinstance(f, Closure):
+        return b.apply(f, tuple(args), tuple(kwargs))
+    if isinstance(f, tuple) and f and f[0] == "partial":
+        return apply_fn(b, f[1], tuple(f[2]) + tuple(args), tuple(f[3]) + tuple(kwargs))
+    if isinstance(f, tuple) and f and f[0] == "global":
+        mod, _, fname = f[1].rpartition(".")
+        mm = b.prog.modules.get(mod)
+        if mm is not None and fname in mm.functions:
+            clo = Closure(mm.functions[fname], {}, Ctx(mm, None, mm.functions[fname]), fname, qualname=None)
+            return b.apply(clo, tuple(args), tuple(kwargs))
+    return b.mk_call(f, tuple(args), tuple(kwargs))
